@@ -190,6 +190,14 @@ def main():
             chk.fail("FAILCLOSED", "unrecognised-structure:%s:%s" % (rule_fn, type(e).__name__),
                      "rule `%s` (%s:%d, `%s`) cannot read the code it is anchored in any more (%s: %s); the shape it was confirmed on has changed, so the obligation is not discharged"
                      % (rule_fn, os.path.basename(where.filename), where.lineno, (where.line or "").strip()[:120], type(e).__name__, str(e)[:160]))
+        try:
+            # every function whose return value a rule of this property read: the value returned is the value built
+            from rules.core import terms as _terms
+            from rules.core.prog import Prog as _Prog
+            from rules.props import retmut as _retmut
+            _retmut.rule(chk, _Prog(f), set(_terms.RET_QUERIED))
+        except facts.InfraError:
+            raise
         if f.aliases:
             chk.analysed["parameter_aliases"] = ["%s: `%s` read as `%s` (renamed parameter, same position and type)" % x for x in f.aliases]
         if f.field_aliases:
